@@ -90,6 +90,10 @@ def gen(tier, rng):
                     yield build(rng, n, k, bad, kind)
     for bad, kind in list(all_bad())[::7]:
         yield build(rng, 2, 1, bad, kind, transport="t")
+    # the same offending lines in a request whose version the library does not support: still 400, never 505-and-go-on
+    for idx, (bad, kind) in enumerate(all_bad()):
+        if idx % (2 if tier == "quick" else 1) == 0 and b" HTTP/1.1\r\n" in bad:
+            yield build(rng, 2, rng.below(2), bad.replace(b" HTTP/1.1\r\n", rng.choice([b" HTTP/2.0\r\n", b" HTTP/3.0\r\n"]), 1), kind + "+v2")
     # the offending line comes after 100 / 150 / 1000 ordinary header fields
     for idx, (bad, kind) in enumerate(all_bad()):
         if idx % (3 if tier == "quick" else 1) == 0:
